@@ -81,6 +81,12 @@ def alphabet():
                           "clk_div": 0x81}, 1028),
         ("mc_dict", "mc_dict", {"boot_delay": 33, "led0": 0xC0000001}, 1028),
         ("dict+kw", "dict+kw", {"link_en": 0x15, "p2p_sql": 9}, 1020),
+        # a preset passed as the dictionary and refined by keywords of the
+        # same call: the explicit keyword is the more specific statement of
+        # this call's options (DESIGN section 4, C20)
+        ("dict&kw", "dict&kw", {"dict": {"led0": 1, "hw_ver": 3,
+                                         "cpu_clk": 140},
+                                "kw": {"led0": 0x502, "cpu_clk": 160}}, 1028),
         ("mc", "mc", {"hw_ver": 2, "num_buf": 3}, 1028),
         ("bundled", "kwargs", {"hw_ver": 4}, "bundled"),
         ("mc_wh", "mc_wh", {"hw_ver": 5, "led0": 1}, 1028),
@@ -162,6 +168,14 @@ def do_call(entry, host, cap, net, mods):
             given = dict(items[:1])
             res = bootmod.boot(host, scamp_binary=img, sv_overrides=given,
                                **dict(items[1:]))
+        elif how == "dict&kw":
+            given = dict(opts["dict"])
+            res = bootmod.boot(host, scamp_binary=img, sv_overrides=given,
+                               **dict(opts["kw"]))
+            if given != opts["dict"]:
+                exc = AssertionError("caller's sv_overrides dict was "
+                                     "modified: %r" % given)
+            opts = dict(opts["dict"], **opts["kw"])
         elif how == "mc_dict":
             mc = mcm.MachineController(host)
             given = dict(opts)
@@ -288,6 +302,24 @@ def judge_call(entry, dgrams, res, opts, exc, now, acc, case, fresh=None):
                 return
     except Exception as e:
         bad("returned_structs", "returned structs unusable: %r" % e)
+        return
+    return vals
+
+
+def still_describes(name, res, vals):
+    """Do the definitions returned by an EARLIER boot still describe what
+    that boot sent?  -> None or a message."""
+    try:
+        sv = res[b"sv"]
+        for k, v in vals.items():
+            if k.startswith("__PAD"):
+                continue
+            got = sv[k.encode()].default
+            if got != v:
+                return ("the definitions returned by boot call %r now say "
+                        "%s=%r, that boot sent %r" % (name, k, got, v))
+    except Exception as e:
+        return "definitions returned by boot call %r unusable: %r" % (name, e)
 
 
 def run_history(hist, acc, fresh_cache):
@@ -302,6 +334,7 @@ def run_history(hist, acc, fresh_cache):
     alpha = alphabet()
     with Patched(net, [bootmod, sc, mcm]):
         sim.sync()
+        earlier = []
         for i, a in enumerate(hist):
             entry = alpha[a]
             now = int(net.time())
@@ -309,7 +342,16 @@ def run_history(hist, acc, fresh_cache):
             acc.transitions += 1
             dg, res, opts, exc = do_call(entry, "board%d" % i, cap, net, None)
             case = dict(hist=list(hist[:i + 1]))
-            judge_call(entry, dg, res, opts, exc, now, acc, case)
+            for oname, ores, ovals in earlier:
+                msg = still_describes(oname, ores, ovals)
+                if msg:
+                    acc.violation(dict(kind="returned_structs_later",
+                                       call=entry[0]), case,
+                                  msg + " (after boot call %r)" % entry[0],
+                                  size=len(case["hist"]) * 10)
+            vals = judge_call(entry, dg, res, opts, exc, now, acc, case)
+            if vals is not None:
+                earlier.append((entry[0], res, vals))
             if any(h != "board%d" % i for h, d in dg):
                 acc.violation(dict(kind="wrong_host", call=entry[0]), case,
                               "boot datagrams sent to %r"
